@@ -7,7 +7,14 @@ The subset understood (anything else raises GenError):
   body       name = expr | arr[i] = expr | arr[i] += expr | if / elif / else | continue
   exprs      names, integer constants, arr[i], == != < <= > >=, and / or / not, + -, min / max,
              `m is None or m[i]` for an optional boolean mask, comparison with the missing value mv
-  epilogue   return x
+  epilogue   return x | return np.array(<list state>, dtype=...)
+  floats     a float array parameter of type fz / a float scalar parameter of type fZ is NOT modelled: its values belong to
+             an abstract type F (a parameter of the definition, with a default element fdef for reads).  The only forms
+             understood are  <float> ** <float>  and  <float> cmp <float>:  they become the abstract operations
+             fval Fpow x y : Z  and  fbool Fge x y : bool  (parameters like `steplen`; the operator is a constructor of
+             the generated type fop, so that a change of operator or operands changes the term, not just a name)
+  lists      x = [] with x.append(i) (list nat) or x.append(np.array([i, j], dtype=...)) (list (list nat))
+  no loop    x = upstream_count(...); return np.where(x cmp c)[0].astype(...)  ->  filter over the cell numbers
 
 Index arrays are `list nat` whose missing value is the array length (so `x == mv` is `length <= x`); all other
 arrays are `list Z`; the optional mask is `option (list bool)` read with Stream.mget.
@@ -37,11 +44,26 @@ KERNELS = [
     # the step length gis_utils.distance(idx0, idx_ds, ncol, latlon, transform) is an abstract function `steplen`
     ("streams.py", "stream_distance", {"idxs_ds": "idx", "seq": "seq", "ncol": "skip", "mask": "omask", "real_length": "boolp",
                                         "latlon": "skip", "transform": "skip"}),
+    # uparea, upa_min and b are floats that are not modelled (fz = float array, fZ = float scalar): `uparea[i] >= upa_min`
+    # and `uparea[i] ** b` are abstract operations on an abstract type
+    ("dem.py", "floodplains", {"idxs_ds": "idx", "seq": "seq", "elevtn": "z", "uparea": "fz", "upa_min": "fZ", "b": "fZ"}),
+    ("core.py", "pit_indices", {"idxs_ds": "idx"}),
+    ("core.py", "flwdir_tuples", {"idxs_ds": "idx", "mask": "omask", "mv": "mv"}),
+    ("core.py", "inflow_idxs", {"idxs_ds": "idx", "seq": "seq", "region": "b"}),
+    ("core.py", "outflow_idxs", {"idxs_ds": "idx", "seq": "seq", "region": "b"}),
+    ("core.py", "headwater_indices", {"idxs_ds": "idx", "mask": "omask", "mv": "mv"}),
+    ("core.py", "confluence_indices", {"idxs_ds": "idx", "mask": "omask", "mv": "mv"}),
 ]
 # string-valued options are integers in the models (the harness uses the same table)
 STRINGS = {"how": {"min": 0, "max": 1, "sum": 2}}
 # calls to other translated kernels allowed in a prologue: callee -> (module alias, result type, argument order)
 CALLS = {"upstream_count": ("core", "z", ["idxs_ds", "mask"])}
+# operators on two un-modelled float values -> constructor of the generated type fop
+FOPS = {ast.Pow: "Fpow", ast.Lt: "Flt", ast.LtE: "Fle", ast.Gt: "Fgt", ast.GtE: "Fge", ast.Eq: "Feq", ast.NotEq: "Fne"}
+FLOAT_DECL = """(* operators on float values that are not modelled: a definition with float parameters takes the type F of the values, a
+   default element fdef (for reads of arrays) and the operations fbool (comparisons) and fval (integer-modelled results) *)
+Inductive fop : Set := """ + " | ".join(FOPS.values()) + "."
+FLOAT_NAMES = ["F", "fdef", "fbool", "fval", "fop"] + list(FOPS.values())
 
 
 class K:
@@ -51,6 +73,7 @@ class K:
         self.fn, self.fd, self.ty = fn, fd, dict(typing)
         self.state = []          # arrays updated in the loop, in order of initialisation
         self.init = {}           # array -> Gallina initial value
+        self.uses_float = any(t in ("fz", "fZ") for t in typing.values())    # float parameters that are not modelled
 
     # ---------------------------------------------------------------- expressions
     def typ(self, e):
@@ -58,7 +81,8 @@ class K:
             t = self.ty.get(e.id)
             if t is None:
                 fail(e, self.fn, f"untyped name {e.id}")
-            return {"idx": "idxarr", "z": "zarr", "b": "barr", "l": "natlist", "Z": "Z", "nat": "nat", "mv": "mv", "omask": "omask", "bool": "bool", "boolp": "bool", "str": "str", "skip": "skip"}[t]
+            return {"idx": "idxarr", "z": "zarr", "b": "barr", "l": "natlist", "Z": "Z", "nat": "nat", "mv": "mv", "omask": "omask", "bool": "bool", "boolp": "bool", "str": "str", "skip": "skip",
+                    "fz": "farr", "fZ": "F", "ll": "natll"}[t]
         if isinstance(e, ast.Constant) and isinstance(e.value, bool):
             return "bool"
         if isinstance(e, ast.Constant) and isinstance(e.value, str):
@@ -69,7 +93,7 @@ class K:
             return "Z"
         if isinstance(e, ast.Subscript):
             t = self.typ(e.value)
-            return {"idxarr": "nat", "zarr": "Z", "barr": "bool"}.get(t) or fail(e, self.fn, "subscript of a non-array")
+            return {"idxarr": "nat", "zarr": "Z", "barr": "bool", "farr": "F"}.get(t) or fail(e, self.fn, "subscript of a non-array")
         if isinstance(e, (ast.Compare, ast.BoolOp)) or (isinstance(e, ast.UnaryOp) and isinstance(e.op, ast.Not)):
             return "bool"
         if isinstance(e, ast.BinOp):
@@ -103,6 +127,8 @@ class K:
         if isinstance(e, ast.Name):
             if self.ty.get(e.id) == "mv":
                 fail(e, self.fn, "missing value outside a comparison")
+            if self.ty.get(e.id) == "skip":
+                fail(e, self.fn, f"parameter {e.id} is not modelled")
             return RENAME.get(e.id, e.id)
         if isinstance(e, ast.Constant) and isinstance(e.value, bool):
             return "true" if e.value else "false"
@@ -125,6 +151,8 @@ class K:
                 return f"(nth {i} {arr.id} 0%Z)"
             if t == "barr":
                 return f"(nth {i} {arr.id} false)"
+            if t == "farr":
+                return f"(nth {i} {arr.id} fdef)"
             fail(e, self.fn, "subscript of a non-array")
         if isinstance(e, ast.UnaryOp) and isinstance(e.op, ast.Not):
             return f"(negb {self.ex(e.operand)})"
@@ -154,6 +182,17 @@ class K:
                         and isinstance(b, ast.UnaryOp) and isinstance(b.op, ast.Not) and isinstance(b.operand, ast.Subscript)
                         and isinstance(b.operand.value, ast.Name) and b.operand.value.id == a.left.id):
                     return f"(negb (mget {a.left.id} {self.ex(b.operand.slice)}))"
+            # `m is not None and m[i] != 1` (a boolean mask: True == 1)  ->  negb (mget m i)
+            if isinstance(e.op, ast.And) and len(e.values) == 2:
+                a, b = e.values
+                if (isinstance(a, ast.Compare) and len(a.ops) == 1 and isinstance(a.ops[0], ast.IsNot)
+                        and isinstance(a.left, ast.Name) and self.ty.get(a.left.id) == "omask"
+                        and isinstance(a.comparators[0], ast.Constant) and a.comparators[0].value is None
+                        and isinstance(b, ast.Compare) and len(b.ops) == 1 and isinstance(b.ops[0], ast.NotEq)
+                        and isinstance(b.left, ast.Subscript) and isinstance(b.left.value, ast.Name) and b.left.value.id == a.left.id
+                        and isinstance(b.comparators[0], ast.Constant) and b.comparators[0].value == 1
+                        and type(b.comparators[0].value) in (int, bool)):
+                    return f"(negb (mget {a.left.id} {self.ex(b.left.slice)}))"
             if isinstance(e.op, ast.And) and len(e.values) == 2:
                 a, b = e.values
                 if (isinstance(a, ast.Compare) and len(a.ops) == 1 and isinstance(a.ops[0], ast.IsNot)
@@ -198,6 +237,9 @@ class K:
                 return c if isinstance(op, ast.Eq) else f"(negb {c})"
             if ta != tb:
                 fail(e, self.fn, f"comparison of {ta} with {tb}")
+            if ta == "F":
+                # two float values that are not modelled: an abstract comparison
+                return f"(fbool {FOPS[type(op)]} {self.ex(a)} {self.ex(b)})" if type(op) in FOPS else fail(e, self.fn, "unsupported comparison")
             if ta == "nat":
                 if not isinstance(op, (ast.Eq, ast.NotEq)):
                     fail(e, self.fn, "ordering of cell indices")
@@ -219,7 +261,11 @@ class K:
             l = self.ex(e.left) if tl == "Z" else f"(Z.of_nat {self.ex(e.left)})"
             r = self.ex(e.right) if tr == "Z" else f"(Z.of_nat {self.ex(e.right)})"
             return f"({l} {'+' if isinstance(e.op, ast.Add) else '-'} {r})%Z"
-        if isinstance(e, ast.Call) and isinstance(e.func, ast.Name) and e.func.id in ("min", "max") and len(e.args) == 2 and not e.keywords:
+        if isinstance(e, ast.BinOp) and isinstance(e.op, ast.Pow) and self.typ(e.left) == "F" and self.typ(e.right) == "F":
+            # a power of two float values that are not modelled: an abstract operation with an (integer-modelled) result
+            return f"(fval {FOPS[ast.Pow]} {self.ex(e.left)} {self.ex(e.right)})"
+        if (isinstance(e, ast.Call) and isinstance(e.func, ast.Name) and e.func.id in ("min", "max") and len(e.args) == 2 and not e.keywords
+                and self.typ(e.args[0]) == "Z" and self.typ(e.args[1]) == "Z"):
             return f"(Z.{e.func.id} {self.ex(e.args[0])} {self.ex(e.args[1])})"
         if (isinstance(e, ast.Call) and isinstance(e.func, ast.Name) and e.func.id == "len" and len(e.args) == 1
                 and isinstance(e.args[0], ast.Name) and self.ty.get(e.args[0].id) == "l"):
@@ -303,6 +349,16 @@ class K:
                 and len(s.value.args) == 1 and self.typ(s.value.args[0]) == "nat"):
             lst = s.value.func.value.id
             return f"{pad}let {lst} := {lst} ++ [{self.ex(s.value.args[0])}] in\n" + self.stmts(rest, ind)
+        if (isinstance(s, ast.Expr) and isinstance(s.value, ast.Call) and isinstance(s.value.func, ast.Attribute) and s.value.func.attr == "append"
+                and isinstance(s.value.func.value, ast.Name) and self.ty.get(s.value.func.value.id) == "ll" and s.value.func.value.id in self.state
+                and len(s.value.args) == 1 and not s.value.keywords and gen.is_np_call(s.value.args[0], ("array",))
+                and len(s.value.args[0].args) == 1 and isinstance(s.value.args[0].args[0], ast.List) and s.value.args[0].args[0].elts
+                and all(kw.arg == "dtype" for kw in s.value.args[0].keywords)
+                and all(self.typ(x) == "nat" for x in s.value.args[0].args[0].elts)):
+            # lst.append(np.array([i, j], dtype=...))
+            lst = s.value.func.value.id
+            row = "; ".join(self.ex(x) for x in s.value.args[0].args[0].elts)
+            return f"{pad}let {lst} := {lst} ++ [[{row}]] in\n" + self.stmts(rest, ind)
         if isinstance(s, ast.If):
             if self.typ(s.test) != "bool":
                 fail(s, self.fn, "non-boolean condition")
@@ -325,9 +381,57 @@ class K:
 
     # ---------------------------------------------------------------- the kernel
     def size_of(self, e):
-        if isinstance(e, ast.Attribute) and e.attr in ("size", "shape") and isinstance(e.value, ast.Name) and self.ty.get(e.value.id) in ("idx", "z", "b"):
+        if isinstance(e, ast.Attribute) and e.attr in ("size", "shape") and isinstance(e.value, ast.Name) and self.ty.get(e.value.id) in ("idx", "z", "b", "fz"):
             return f"(length {e.value.id})"
         fail(e, self.fn, "unsupported size expression")
+
+    def callee(self, v):
+        """the translated kernel called by v: `<module>.<kernel>(...)`, or `<kernel>(...)` inside the module of the kernel"""
+        if not isinstance(v, ast.Call):
+            return None
+        if (isinstance(v.func, ast.Attribute) and isinstance(v.func.value, ast.Name) and v.func.attr in CALLS
+                and v.func.value.id == CALLS[v.func.attr][0]):
+            return v.func.attr
+        if isinstance(v.func, ast.Name) and v.func.id in CALLS and self.fn == CALLS[v.func.id][0] + ".py":
+            return v.func.id
+        return None
+
+    def where(self, e):
+        """np.where(<array> cmp <value>)[0].astype(<arr>.dtype)  ->  the cell numbers at which the comparison holds, ascending"""
+        if not (isinstance(e, ast.Call) and isinstance(e.func, ast.Attribute) and e.func.attr == "astype" and len(e.args) == 1
+                and not e.keywords and isinstance(e.args[0], ast.Attribute) and e.args[0].attr == "dtype"
+                and isinstance(e.args[0].value, ast.Name) and self.ty.get(e.args[0].value.id) == "idx"
+                and isinstance(e.func.value, ast.Subscript) and isinstance(e.func.value.slice, ast.Constant)
+                and e.func.value.slice.value == 0 and type(e.func.value.slice.value) is int
+                and gen.is_np_call(e.func.value.value, ("where",)) and len(e.func.value.value.args) == 1
+                and not e.func.value.value.keywords):
+            fail(e, self.fn, "unsupported return")
+        c = e.func.value.value.args[0]
+        if not (isinstance(c, ast.Compare) and len(c.ops) == 1 and isinstance(c.left, ast.Name) and self.ty.get(c.left.id) == "z"
+                and self.typ(c.comparators[0]) == "Z" and not any(isinstance(n, ast.Name) for n in ast.walk(c.comparators[0]))):
+            fail(e, self.fn, "unsupported selection")
+        if "i_" in self.ty:
+            fail(e, self.fn, "name clash for the bound cell number")
+        self.ty["i_"] = "nat"
+        el = ast.copy_location(ast.Subscript(value=c.left, slice=ast.Name(id="i_"), ctx=ast.Load()), c)
+        test = self.ex(ast.copy_location(ast.Compare(left=el, ops=c.ops, comparators=c.comparators), c))
+        del self.ty["i_"]
+        return f"filter (fun i_ => {test}) (seq 0 (length {c.left.id}))"
+
+    def all_true(self, c):
+        """[bool(1) for _ in range(<arr>.size)]  ->  the size, else None"""
+        if not (len(c.generators) == 1 and not c.generators[0].ifs and not c.generators[0].is_async
+                and isinstance(c.generators[0].target, ast.Name) and c.generators[0].target.id == "_"):
+            return None
+        it, el = c.generators[0].iter, c.elt
+        if not (isinstance(it, ast.Call) and isinstance(it.func, ast.Name) and it.func.id == "range" and len(it.args) == 1
+                and not it.keywords):
+            return None
+        true = ((isinstance(el, ast.Constant) and el.value is True)
+                or (isinstance(el, ast.Call) and isinstance(el.func, ast.Name) and el.func.id == "bool" and len(el.args) == 1
+                    and not el.keywords and isinstance(el.args[0], ast.Constant) and el.args[0].value in (1, True)
+                    and not isinstance(el.args[0].value, float)))
+        return self.size_of(it.args[0]) if true else None
 
     def kernel(self):
         fd = self.fd
@@ -348,6 +452,8 @@ class K:
         for pos, s in enumerate(body):
             if isinstance(s, ast.For):
                 loop = pos
+                break
+            if isinstance(s, ast.Return) and pos == len(body) - 1:
                 break
             if (isinstance(s, ast.If) and not s.orelse and len(s.body) == 1 and isinstance(s.test, ast.Compare) and len(s.test.ops) == 1
                     and isinstance(s.test.ops[0], ast.Lt) and isinstance(s.test.left, ast.Name) and self.ty.get(s.test.left.id) == "Z"
@@ -404,23 +510,49 @@ class K:
                     fail(s, self.fn, "copy of a non-array")
                 self.ty[name] = self.ty[src]
                 self.init[name] = src
-            elif (isinstance(v, ast.Call) and isinstance(v.func, ast.Attribute) and isinstance(v.func.value, ast.Name)
-                  and v.func.attr in CALLS and v.func.value.id == CALLS[v.func.attr][0] and not v.args):
-                # x = core.upstream_count(idxs_ds=idxs_ds, mask=mask, mv=mv): every keyword passes the parameter of the same name
-                mod, rty, order = CALLS[v.func.attr]
+            elif self.callee(v) is not None:
+                # x = core.upstream_count(idxs_ds=idxs_ds, mask=mask, mv=mv): every argument passes the parameter of the same name
+                # (inside the module of the callee the call is unqualified; a positional argument must be the callee's
+                # parameter of that position)
+                cname = self.callee(v)
+                mod, rty, order = CALLS[cname]
                 kws = {}
+                if v.args:
+                    cfn = [f_ for (f_, n_) in KERNELS_T if n_ == cname and f_ == mod + ".py"]
+                    if len(cfn) != 1:
+                        fail(s, self.fn, "callee is not a translated kernel")
+                    cpar = [a.arg for a in find_def(parse(cfn[0]), cname, cfn[0]).args.args]
+                    for k, a in enumerate(v.args):
+                        if not (isinstance(a, ast.Name) and k < len(cpar) and a.id == cpar[k] and a.id in self.ty):
+                            fail(s, self.fn, "unsupported argument of a kernel call")
+                        kws[a.id] = a.id
                 for kw in v.keywords:
-                    if not (isinstance(kw.value, ast.Name) and kw.value.id == kw.arg and kw.arg in self.ty):
+                    if not (isinstance(kw.value, ast.Name) and kw.value.id == kw.arg and kw.arg in self.ty and kw.arg not in kws):
                         fail(s, self.fn, "unsupported argument of a kernel call")
                     kws[kw.arg] = kw.value.id
                 if sorted(k for k in kws if self.ty[k] != "mv") != sorted(order):
                     fail(s, self.fn, "kernel call does not pass exactly the expected arguments")
                 self.ty[name] = rty
-                self.derived.append((name, f"(gen_{v.func.attr} {' '.join(order)})"))
+                self.derived.append((name, f"(gen_{cname} {' '.join(order)})"))
                 continue
             elif isinstance(v, ast.List) and not v.elts:
-                self.ty[name] = "l"
-                self.init[name] = "(@nil nat)"
+                # the element type of the list: cell indices, or arrays of cell indices if every append adds np.array([...])
+                apps = [nd.args[0] for nd in ast.walk(fd) if isinstance(nd, ast.Call) and isinstance(nd.func, ast.Attribute)
+                        and nd.func.attr == "append" and isinstance(nd.func.value, ast.Name) and nd.func.value.id == name
+                        and len(nd.args) == 1]
+                if apps and all(gen.is_np_call(a, ("array",)) for a in apps):
+                    self.ty[name] = "ll"
+                    self.init[name] = "(@nil (list nat))"
+                elif any(gen.is_np_call(a, ("array",)) for a in apps):
+                    fail(s, self.fn, "list of mixed element types")
+                else:
+                    self.ty[name] = "l"
+                    self.init[name] = "(@nil nat)"
+            elif (gen.is_np_call(v, ("array",)) and len(v.args) == 1 and not v.keywords and isinstance(v.args[0], ast.ListComp)
+                  and self.all_true(v.args[0]) is not None):
+                # x = np.array([bool(1) for _ in range(<arr>.size)]): all True
+                self.ty[name] = "b"
+                self.init[name] = f"(repeat true {self.all_true(v.args[0])})"
             elif gen.is_np_call(v, ("zeros",)) and len(v.args) >= 1:
                 self.ty[name] = "z"
                 self.init[name] = f"(repeat 0%Z {self.size_of(v.args[0])})"
@@ -439,7 +571,19 @@ class K:
                 fail(s, self.fn, "unsupported prologue statement")
             self.state.append(name)
         if loop is None:
-            fail(fd, self.fn, "expected prologue, for loops, return")
+            # no loop: arrays obtained from translated kernels, and a selection of cell numbers
+            if (self.state or getattr(self, "consts", []) or getattr(self, "rebind", []) or not self.derived
+                    or not (body and isinstance(body[-1], ast.Return))):
+                fail(fd, self.fn, "expected prologue, for loops, return")
+            sel = self.where(body[-1].value)
+            ps = [f"({RENAME.get(a, a)} : {dict(idx='list nat', omask='option (list bool)')[t0]})"
+                  for a, t0 in KERNELS_T[(self.fn, fd.name)] if a in args and t0 in ("idx", "omask")]
+            if any(t0 not in ("idx", "omask", "mv") for a, t0 in KERNELS_T[(self.fn, fd.name)] if a in args):
+                fail(fd, self.fn, "unsupported parameter of a kernel without a loop")
+            out = [f"(* {self.fn}: {fd.name} *)", f"Definition gen_{fd.name} {' '.join(ps)} : list nat :=",
+                   f"  let NMV := length {idxarr[0]} in"]
+            out += [f"  let {nm} := {expr} in" for nm, expr in self.derived]
+            return "\n".join(out) + f"\n  {sel}."
         loops, ret = body[loop:-1], body[-1]
         alias = {}
         while loops and isinstance(loops[-1], ast.Assign):
@@ -456,11 +600,11 @@ class K:
             t0 = dict(KERNELS_T[(self.fn, fd.name)])[a]
             if t0 in ("mv", "skip"):
                 continue
-            params.append(f"({RENAME.get(a, a)} : {dict(idx='list nat', z='list Z', b='list bool', Z='Z', str='Z', seq='list nat', omask='option (list bool)', boolp='bool')[t0]})")
+            params.append(f"({RENAME.get(a, a)} : {dict(idx='list nat', z='list Z', b='list bool', Z='Z', str='Z', seq='list nat', omask='option (list bool)', boolp='bool', fz='list F', fZ='F')[t0]})")
         dparams = [f"({nm} : list Z)" for nm, _ in self.derived]
         name = f"gen_{fd.name}"
         pat = self.tuple() if len(self.state) == 1 else "'" + self.tuple()
-        ctype = {"idx": "list nat", "z": "list Z", "b": "list bool", "l": "list nat"}
+        ctype = {"idx": "list nat", "z": "list Z", "b": "list bool", "l": "list nat", "ll": "list (list nat)"}
         sttype = " * ".join(ctype[self.ty[a]] for a in self.state)
         pnames = " ".join(RENAME.get(a, a) for a in args if dict(KERNELS_T[(self.fn, fd.name)])[a] not in ("mv", "skip"))
         dn = "".join(" " + nm for nm, _ in self.derived)
@@ -490,6 +634,14 @@ class K:
         if getattr(self, "uses_steplen", False):
             params = params + ["(steplen : nat -> nat -> Z)"]
             pnames = pnames + " steplen"
+        if self.uses_float:
+            # the abstract float type first, its default element and operations last
+            used = {nd.id for nd in ast.walk(fd) if isinstance(nd, ast.Name)} | set(args)
+            clash = [nm for nm in FLOAT_NAMES if nm in used]
+            if clash:
+                fail(fd, self.fn, f"name clash with the float parameters: {clash}")
+            params = ["(F : Type)"] + params + ["(fdef : F)", "(fbool : fop -> F -> F -> bool)", "(fval : fop -> F -> F -> Z)"]
+            pnames = "F " + pnames + " fdef fbool fval"
         consts = getattr(self, "consts", [])
         for li, (tgt, bodytxt) in enumerate(bodies):
             suffix = "" if len(loops) == 1 else str(li + 1)
@@ -505,6 +657,11 @@ class K:
         self.ty = base_ty
         init = self.init[self.state[0]] if len(self.state) == 1 else "(" + ", ".join(self.init[a] for a in self.state) + ")"
         # the result: one array of the state or all of them in order
+        if (isinstance(ret, ast.Return) and gen.is_np_call(ret.value, ("array",)) and len(ret.value.args) == 1
+                and isinstance(ret.value.args[0], ast.Name) and self.ty.get(ret.value.args[0].id) == "l"
+                and all(kw.arg == "dtype" for kw in ret.value.keywords)):
+            # return np.array(<list state>, dtype=...): the same list as an array
+            ret = ast.copy_location(ast.Return(value=ret.value.args[0]), ret)
         if isinstance(ret, ast.Return) and isinstance(ret.value, ast.Name) and ret.value.id in self.state:
             proj = ret.value.id
             rtype = ctype[self.ty[proj]]
@@ -572,7 +729,11 @@ def gen_loops():
     for fn, name, ty in KERNELS:
         tree = trees.setdefault(fn, parse(fn))
         fd = find_def(tree, name, fn)
-        parts.append(K(fn, fd, ty).kernel())
+        k = K(fn, fd, ty)
+        text = k.kernel()
+        if k.uses_float and FLOAT_DECL not in parts:
+            parts += [FLOAT_DECL, ""]
+        parts.append(text)
         parts.append("")
     return "\n".join(parts)
 
